@@ -58,7 +58,7 @@ Definition step (c : cfg) (st : state) (ci : client_in) : result * state :=
     | Some (db, name) =>
       {| caches := (db, name, cache' r) :: caches st;
          valid := match out r with
-                  | Admitted _ _ => if existsb is_validate (events r) then (db, name) :: valid st else valid st
+                  | PoolAdmitted _ _ => if existsb is_validate (events r) then (db, name) :: valid st else valid st
                   | _ => valid st
                   end |}
     | None => st
